@@ -85,7 +85,7 @@ Definition empty_trailer (pv : provider) (pad : Z) : sec_trailer :=
      st_auth_value := Framing.zeros (pv_sig_len pv) |}.
 
 Section WithContext.
-Context (wrap : wrap_fn) (unwrap : unwrap_fn) (pfuel : nat) (sch : list Z).
+Context (wrap : wrap_fn) (unwrap : unwrap_fn) (sch : list Z).
 
 (* SyncRpcClient._send_pdu / AsyncRpcClient._send_pdu for a Request: _prepare_pdu (Framing.prepare_pdu), the write, then one reply
    read from the transport and _process_response (Conversation.receive_response) *)
@@ -195,7 +195,8 @@ Definition client_ext : ext obj :=
          | _ => None
          end
        else if String.eqb f "PDU.unpack" then
-         match args with [VB b] => Some (let* (p, _) := pdu_unpack pfuel b in Ok (VO (OPdu p))) | _ => None end
+         (* RpcDispatch.pdu_unpack with the loop fuel S (length data) of Units_rpc.fuel_for, as Seal.process_response *)
+         match args with [VB b] => Some (let* (p, _) := pdu_unpack (S (List.length b)) b in Ok (VO (OPdu p))) | _ => None end
        else if String.eqb f "isinstance" then
          (* only for the two classes nobody subclasses *)
          match args with
